@@ -39,7 +39,7 @@ use std::process::Command;
 use std::time::Instant;
 
 pub const RULE: &str = "wellformed: proptest meshes (0..40 vertices, 0..60 triangles, 5 % up to 400/600 in thorough; coordinates from a class mixture: +-0, integers, dyadic, decimal, uniform, \
-arbitrary finite bit patterns, subnormal, MAX) rendered as OBJ text with 8 exact number formats (shortest plain, Debug, e/E exponent, signed/zero-padded exponent, 13-digit exponent, trailing zeros), \
+arbitrary finite bit patterns, subnormal, MAX) rendered as OBJ text with 10 exact number formats (shortest plain, Debug, e/E exponent, signed/zero-padded exponent, 13-digit exponent, trailing zeros, 30..80-digit decimals just above / just below the midpoint to a neighbouring f32), \
 index forms v, v/vt, v//vn, v/vt/vn with matching vt/vn lines, 4 orderings (faces after, before, between, interleaved), per-line decorations (blank, whitespace-only, comment, indented comment, \
 comment with non-ASCII bytes, indentation, multi-space/tab separators, trailing whitespace), LF/CRLF, with/without final newline. Non-trivial = at least one face and at least one layout feature other than \
 'plain v lines, then f lines with bare indices, single spaces'; distinct by the hash of the case structure. \
@@ -258,7 +258,28 @@ fn pad_exp(s: &str, plus: bool) -> String {
 /// Decimal text that parses back to exactly `x` (every form is exact by
 /// construction; the final guard only protects the generator itself).
 fn fmt_num(x: f32, code: u8) -> String {
-    let s = match code % 8 {
+    let s = match code % 10 {
+        // a long decimal a hair on x's side of the midpoint between x and a neighbouring f32 (exact binary expansion of
+        // the midpoint, then pushed off it): the nearest f32 is x, but only a correctly rounding parser returns it
+        8 | 9 if x != 0.0 && (1e-6..=1e7).contains(&x.abs()) => {
+            let a = x.abs();
+            let (lo, hi) = (f32::from_bits(a.to_bits() - 1), f32::from_bits(a.to_bits() + 1));
+            let sign = if x < 0.0 { "-" } else { "" };
+            let exact = |m: f64| format!("{m:.70}").trim_end_matches('0').to_string();
+            if code % 10 == 8 {
+                // just above (lo + a) / 2
+                let t = exact((lo as f64 + a as f64) / 2.0);
+                if t.ends_with('.') { format!("{sign}{t}00000000000000000000000001") } else { format!("{sign}{t}0000000001") }
+            } else {
+                // just below (a + hi) / 2
+                let t = exact((a as f64 + hi as f64) / 2.0);
+                match t.strip_suffix('5') {
+                    Some(h) if t.contains('.') => format!("{sign}{h}4999999999999"),
+                    _ => format!("{x}"),
+                }
+            }
+        }
+        8 | 9 => format!("{x}"),
         0 => format!("{x}"),
         1 => format!("{x:?}"),
         2 => format!("{x:e}"),
@@ -307,7 +328,9 @@ impl WfCase {
             let code = if self.fmts.is_empty() { 0 } else { self.fmts[fi % self.fmts.len()] };
             fi += 1;
             let s = fmt_num(x, code);
-            if s.contains('e') || s.contains('E') {
+            if s.len() > 25 && !s.contains('e') {
+                feat("number:long decimal next to an f32 rounding midpoint")
+            } else if s.contains('e') || s.contains('E') {
                 feat("number:exponent")
             } else {
                 feat("number:plain")
@@ -553,7 +576,7 @@ fn sized<T: std::fmt::Debug + Clone + 'static>(e: impl Strategy<Value = T> + Clo
 pub fn wf_case(max_v: usize, max_f: usize, big_v: usize, big_f: usize) -> BoxedStrategy<WfCase> {
     let verts = sized([coord(), coord(), coord()].prop_map(xs).boxed(), max_v, big_v);
     let faces = sized(face_spec().boxed(), max_f, big_f);
-    let fmts = prop_oneof![1 => Just(vec![0u8]), 1 => Just(vec![2u8]), 6 => pvec(0u8..8, 1..=7)];
+    let fmts = prop_oneof![1 => Just(vec![0u8]), 1 => Just(vec![2u8]), 6 => pvec(0u8..10, 1..=7)];
     let counts = prop_oneof![2 => Just(0u8), 1 => Just(1u8), 5 => 0u8..=50];
     let order = prop_oneof![3 => Just(0u8), 2 => Just(1u8), 3 => Just(2u8), 1 => Just(3u8)];
     let decos = prop_oneof![2 => Just(vec![]), 6 => pvec(deco(), 1..=8)];
